@@ -3,8 +3,8 @@ From ClapModel Require Import Base.Bytes Base.Machine Base.Utf8 Lex.OsStrExtMode
 From ClapModel Require Import Parse.Cmd Parse.Build Parse.Valid Parse.Matcher Parse.Errors Parse.Validator Parse.Parser.
 From ClapModel Require Import ParseProofs.Actions ParseProofs.Unparse ParseProofs.UnparseProofs ParseProofs.UnparseTop
                               ParseProofs.UnparseSub ParseProofs.UnparseTrail ParseProofs.UnparseTree ParseProofs.UnparseIdx ParseProofs.UnparseIdxTop
-                              ParseProofs.UnparseX ParseProofs.UnparseXProofs ParseProofs.UnparseXTree ParseProofs.UnparseXTrail ParseProofs.UnparseYTree
-                              ParseProofs.UnparseBridge.
+                              ParseProofs.UnparseX ParseProofs.UnparseXProofs ParseProofs.UnparseXTree ParseProofs.UnparseXTrail ParseProofs.UnparseXLook
+                              ParseProofs.UnparseYTree ParseProofs.UnparseBridge.
 From Coq Require Import ZArith List Bool.
 From RecordUpdate Require Import RecordSet.
 Import RecordSetNotations.
@@ -116,3 +116,54 @@ Module HEx.
     raw_of [118] m = Some [[[49]]] /\ idx_of_m [97] m = Some [3; 4; 5; 6] /\ ms_sub m = None.
   Proof. eexists. split; [vm_compute; reflexivity|]. repeat split. Qed.
 End HEx.
+
+Module LEx.
+  (** prog -v (Count)  <src>... (required, 1.. values)  <dst> (required)        -- a low-index multiple
+      line 1: prog -v A B C       ([src] = A B, [dst] = C: the last token goes to the last positional)
+      line 2: prog A B C -v       (C is followed by a flag: it goes to [dst]) *)
+  Definition v : arg := (arg_new [118]) <| a_short := Some 118 |> <| a_action := Some ACount |>.
+  Definition src : arg := (arg_new [115]) <| a_num := Some {| vmin := 1; vmax := usize_max |} |> <| a_required := true |>.
+  Definition dst : arg := (arg_new [100]) <| a_required := true |>.
+  Definition c0 : cmd := (cmd_new [112]) <| c_args := [v; src; dst] |>.
+  Definition bin : bytes := [112].
+  Definition c : cmd := build_self (with_bin c0 bin).
+  Definition l1 : invy := YLook [ItCluster [118] TNone] [[65]; [66]] [67] [].
+  Definition l2 : invy := YLook [] [[65]; [66]] [67] [ItCluster [118] TNone].
+  Definition raw_of (i : id) (m : matches) : option groups := opt_map m_raw (fm_get i (ms_args m)).
+  Definition idx_of_m (i : id) (m : matches) : option (list N) := opt_map m_indices (fm_get i (ms_args m)).
+  Example ex_hyps :
+    is_set s_no_binary_name c0 = false /\ valid (with_bin c0 bin) = true /\ wfy_inv c l1 = true /\ wfy_inv c l2 = true /\
+    user_conventionalx c0 = true /\ Escape.low_index_mults_any c = true /\
+    no_globals (build_recursive (S (S (depth c))) (with_bin c0 bin)) = true /\
+    render_invy l1 = [[45; 118]; [65]; [66]; [67]] /\ render_invy l2 = [[65]; [66]; [67]; [45; 118]].
+  Proof. vm_compute. repeat split; reflexivity. Qed.
+  Example ex_parse : exists m m2,
+    parse_top c0 (bin :: render_invy l1) = OOk m /\
+    raw_of [115] m = Some [[[65]; [66]]] /\ raw_of [100] m = Some [[[67]]] /\ raw_of [118] m = Some [[[49]]] /\
+    idx_of_m [115] m = Some [2; 3] /\ idx_of_m [100] m = Some [4] /\
+    parse_top c0 (bin :: render_invy l2) = OOk m2 /\
+    raw_of [115] m2 = Some [[[65]; [66]]] /\ raw_of [100] m2 = Some [[[67]]] /\ raw_of [118] m2 = Some [[[49]]] /\
+    idx_of_m [115] m2 = Some [1; 2] /\ idx_of_m [100] m2 = Some [3].
+  Proof. eexists. eexists. split; [vm_compute; reflexivity|]. do 5 (split; [reflexivity|]). split; [vm_compute; reflexivity|]. repeat split. Qed.
+
+  (** prog -v [first] <second>   with allow_missing_positional
+      line 1: prog A -v           ([first] skipped: A is [second])
+      line 2: prog -v A B         ([first] = A, [second] = B) *)
+  Definition first : arg := arg_new [102].
+  Definition second : arg := (arg_new [115]) <| a_required := true |>.
+  Definition m0 : cmd := (cmd_new [112]) <| c_args := [v; first; second] |> <| c_set := settings_none <| s_allow_missing_pos := true |> |>.
+  Definition mc : cmd := build_self (with_bin m0 bin).
+  Definition a1 : invy := YLook [] [] [65] [ItCluster [118] TNone].
+  Definition a2 : invy := YLook [ItCluster [118] TNone] [[65]] [66] [].
+  Example ex_amp_hyps :
+    is_set s_no_binary_name m0 = false /\ valid (with_bin m0 bin) = true /\ wfy_inv mc a1 = true /\ wfy_inv mc a2 = true /\
+    user_conventionalx m0 = true /\ is_set s_allow_missing_pos mc = true /\
+    no_globals (build_recursive (S (S (depth mc))) (with_bin m0 bin)) = true /\
+    render_invy a1 = [[65]; [45; 118]] /\ render_invy a2 = [[45; 118]; [65]; [66]].
+  Proof. vm_compute. repeat split; reflexivity. Qed.
+  Example ex_amp_parse : exists m m2,
+    parse_top m0 (bin :: render_invy a1) = OOk m /\ raw_of [102] m = None /\ raw_of [115] m = Some [[[65]]] /\ idx_of_m [115] m = Some [1] /\
+    parse_top m0 (bin :: render_invy a2) = OOk m2 /\ raw_of [102] m2 = Some [[[65]]] /\ raw_of [115] m2 = Some [[[66]]] /\
+    idx_of_m [102] m2 = Some [2] /\ idx_of_m [115] m2 = Some [3].
+  Proof. eexists. eexists. split; [vm_compute; reflexivity|]. do 3 (split; [reflexivity|]). split; [vm_compute; reflexivity|]. repeat split. Qed.
+End LEx.
